@@ -19,14 +19,18 @@ from ..core import viol
 
 ID = "C19"
 LEVEL = "exploration"
-TECHNIQUE = "bounded exhaustive enumeration (data class x n x tau_max x n_pca_modes x n_modes x preprocessing flags x solver x provenance of the model object) of real OPA fits against explicit lag sums and a scipy generalised-eigenvalue reference"
+TECHNIQUE = "bounded exhaustive enumeration (data class x n x tau_max x n_pca_modes x n_modes x preprocessing flags x solver x provenance of the model object x argument type of the integer options) of real OPA fits against explicit lag sums and a scipy generalised-eigenvalue reference"
 RULE = (
     "full product of data class (white; AR(1) mixture phi in {0.9,0.5,0.1,-0.6} of rank 4; the same plus white noise, rank 6; "
     "period-16 oscillation plus white noise; AR mixture under a dominant period-12 cycle of amplitude 3e4, PC variances spanning 1e8..1e10) x n in {40,80} x tau_max (1..13 for n=40; 1,2,5,13,26 for n=80) x n_pca_modes in 2..rank x "
     "n_modes in 1..n_pca_modes x center x standardize x use_coslat x weights (all 16 for n=40 and tau_max in {1,2,5,13}, 4 combinations otherwise) x "
     "solver (full; plus randomized and auto at default flags, n=40, tau_max in {1,5,13}); quick: n=40 tau_max in {1,2,5,13} with 4 flag combinations, "
     "n=80 tau_max in {2,26} default flags, solver full; provenance of the judged object in {fresh, refit = the same OPA object first fitted on another "
-    "realisation (other salt, other length) of the data class} - refit at default flags in quick, at default and coslat+weights flags in thorough; a case is non-trivial "
+    "realisation (other salt, other length) of the data class} - refit at default flags in quick, at default and coslat+weights flags in thorough; "
+    "argument type: tau_max given as numpy.int64 / numpy.int32 instead of a Python int (n=40, default flags, tau_max in {1,5,13} x 3 (n_pca_modes, n_modes) pairs in quick; "
+    "tau_max in {1,2,5,13} x all pairs in thorough), and per data class one configuration each for n_modes / n_pca_modes as numpy ints and every option as an integer-valued float "
+    "(refused by the unchanged tree; judged like any other case should they be accepted); long lag window: 1000 samples, tau_max in {256,257,300} "
+    "(2 data classes x 3 pairs in quick, all classes x all pairs in thorough); a case is non-trivial "
     "when the fit returned and all clauses (series uncorrelated / equal norm, bi-orthogonality, reported time = trapezoidal lag sum of that "
     "very series, descending, first value = largest generalised eigenvalue over the retained PCs, first series in their span) were "
     "evaluated on non-empty arrays"
@@ -38,8 +42,9 @@ ASSUMPTIONS = [
     "default sample_name/feature_name (the hard-coded 'sample' in OPA is C07's subject)",
     "tolerances: 1e-8 (1e-6 randomized), widened to 100*eps*s_1/s_k for the series/pattern clauses and to 1000*eps*s_1/(s_k-s_{k+1}) for the optimality clause (first-order perturbation bounds of the whitening and of the retained PC subspace); at most 1e-5",
     "tau_max is a constructor argument without public setter, so the refit history varies the data (realisation and length) only",
+    "a TypeError/ValueError for an integer option given as numpy integer or integer-valued float is a refusal (tallied, not judged); a Python int is never refused",
 ]
-TALLY_KEYS = ("data", "prov", "n", "tau_max", "n_pca_modes", "solver")
+TALLY_KEYS = ("data", "prov", "n", "tau_max", "n_pca_modes", "solver", "topt", "ttype")
 TRUSTED = ["statsmodels import shim not used here"]
 
 NLAT, NLON = 3, 2
@@ -50,6 +55,10 @@ DATA = ("white", "ar_mix", "ar_mix_noise", "osc_noise", "cycle_dom")
 RANK = {"white": 6, "ar_mix": 4, "ar_mix_noise": 6, "osc_noise": 6, "cycle_dom": 6}
 N_OTHER = {40: 30, 80: 50}  # length of the data set a refitted object saw first
 EPS = float(np.finfo(float).eps)
+N_LONG = 1000  # long lag window: tau_max beyond CPython's shared small ints, still <= n/3
+TAUS_LONG = (256, 257, 300)
+ARGTYPES = {"int": int, "np.int64": np.int64, "np.int32": np.int32, "float": float}
+MAX_REFUSED_FRACTION = 0.05
 ESTIMATORS = ("n-tau-1", "n-tau", "n")
 
 FLAGS_ALL = [(c, s, cl, w) for c in (True, False) for s in (False, True) for cl in (False, True) for w in (False, True)]
@@ -86,7 +95,25 @@ def cases(tier, seed):
                             for k in range(2, RANK[data] + 1):
                                 for m in range(1, k + 1):
                                     out.append(dict(model="OPA", data=data, prov=prov, n=n, tau_max=tau_max, n_pca_modes=k, n_modes=m, center=c, standardize=s, coslat=cl, weights=w, solver=solver))
-    out.sort(key=lambda c: (c["n"], c["tau_max"], c["n_pca_modes"], c["n_modes"], c["prov"] != "fresh"))  # simplest first (stable)
+    base = dict(model="OPA", prov="fresh", center=True, standardize=False, coslat=False, weights=False, solver="full")
+    # ---- argument type of the integer options (a numpy integer is not the same object as, but equal to, a Python int)
+    for data in DATA:
+        r = RANK[data]
+        pairs = [(k, m) for k in range(2, r + 1) for m in range(1, k + 1)] if tier == "thorough" else [(2, 1), (r, 2), (r, r)]
+        for tau_max in ((1, 2, 5, 13) if tier == "thorough" else (1, 5, 13)):
+            for ttype in ("np.int64", "np.int32"):
+                for (k, m) in pairs:
+                    out.append(dict(base, data=data, n=40, tau_max=tau_max, n_pca_modes=k, n_modes=m, topt="tau_max", ttype=ttype))
+        for topt, ttype in (("n_modes", "np.int64"), ("n_modes", "np.int32"), ("n_pca_modes", "np.int64"), ("n_pca_modes", "np.int32"), ("tau_max", "float"), ("n_modes", "float"), ("n_pca_modes", "float")):
+            out.append(dict(base, data=data, n=40, tau_max=5, n_pca_modes=4, n_modes=2, topt=topt, ttype=ttype))
+    # ---- long lag window
+    for data in (DATA if tier == "thorough" else ("ar_mix_noise", "osc_noise")):
+        r = RANK[data]
+        pairs = [(k, m) for k in range(2, r + 1) for m in range(1, k + 1)] if tier == "thorough" else [(2, 2), (4, 1), (r, r)]
+        for tau_max in TAUS_LONG:
+            for (k, m) in pairs:
+                out.append(dict(base, data=data, n=N_LONG, tau_max=tau_max, n_pca_modes=k, n_modes=m))
+    out.sort(key=lambda c: (c["n"], c["tau_max"], c["n_pca_modes"], c["n_modes"], c["prov"] != "fresh", c.get("ttype", "int") != "int"))  # simplest first (stable)
     return out
 
 
@@ -190,22 +217,36 @@ def run_case(case, seed):
     X, da, wda, wvec, cl = build_input(case, seed)
     n = case["n"]
     k, nm, tmax = case["n_pca_modes"], case["n_modes"], case["tau_max"]
-    model = xe.single.OPA(
-        n_modes=nm, tau_max=tmax, n_pca_modes=k, center=case["center"], standardize=case["standardize"], use_coslat=case["coslat"], solver=case["solver"], random_state=5
-    )
+    ttype, topt = case.get("ttype", "int"), case.get("topt")
+    opts = dict(n_modes=nm, tau_max=tmax, n_pca_modes=k)
+    if ttype != "int":
+        opts[topt] = ARGTYPES[ttype](opts[topt])  # same value, other type
     V = []
     feats = dict(prov=case.get("prov", "fresh"))
+    if ttype != "int":
+        feats.update(argtype=ttype, arg=topt)
+    if tmax > 256:
+        feats.update(tau_max_gt_256=True)
 
     def bad(check, msg, **features):
         V.append(viol(check, "OPA", msg, **dict(feats, **features)))
 
     with warnings.catch_warnings():
         warnings.simplefilter("ignore")
+        try:
+            model = xe.single.OPA(center=case["center"], standardize=case["standardize"], use_coslat=case["coslat"], solver=case["solver"], random_state=5, **opts)
+            if ttype != "int":
+                model.fit(da, dim="time", weights=wda)
+        except (TypeError, ValueError) as e:
+            if ttype != "int":
+                return dict(outcome="refused:" + type(e).__name__, nontrivial=False, info=dict(refused_arg=topt, refused_type=ttype))
+            raise
         if case.get("prov", "fresh") == "refit":
             # history fit(D'); fit(D) on ONE object: everything judged below must describe D only
             _, da0, wda0, _, _ = build_input(case, seed, n=N_OTHER[n], salt=1)
             model.fit(da0, dim="time", weights=wda0)
-        model.fit(da, dim="time", weights=wda)
+        if ttype == "int":
+            model.fit(da, dim="time", weights=wda)
         sc = model.scores()
         comps = model.components()
         fps = model.filter_patterns()
@@ -296,7 +337,7 @@ def run_case(case, seed):
         if not e <= tol_e:
             bad("first_in_pc_span", "relative residual of the first series outside the retained PCs = %.3e" % e)
 
-    info = dict(min_own=float(own[:, 0].min()), max_own=float(own[:, 0].max()), decidable=bool(decidable), cond=float((s[0] / max(s[k - 1], 1e-300)) ** 2))
+    info = dict(min_own=float(own[:, 0].min()), max_own=float(own[:, 0].max()), decidable=bool(decidable), cond=float((s[0] / max(s[k - 1], 1e-300)) ** 2), long=bool(tmax > 256), argtype=ttype)
     if not decidable:
         return dict(violations=V, outcome="violation" if V else "skipped:pca_cut_in_cluster", nontrivial=False, info=info)
     return dict(violations=V, outcome="violation" if V else "ok", nontrivial=S.size > 0 and W.size > 0 and T.size > 0, info=info)
@@ -311,11 +352,17 @@ def finalize(cases_, results, tier, seed):
     large = sum(1 for r in results if r.get("info", {}).get("max_own", 0.0) > 1.0)
     illc = sum(1 for r in results if 1e8 <= r.get("info", {}).get("cond", 0.0) <= 1e10)
     refit = sum(1 for c in cases_ if c.get("prov") == "refit")
-    return [], dict(cases_with_pc_variance_ratio_1e8_to_1e10=illc, cases_refit_on_same_object=refit, cases_with_negative_own_sum=neg, cases_with_own_sum_below_half=small, cases_with_own_sum_above_one=large)
+    typed = sum(1 for c, r in zip(cases_, results) if c.get("ttype", "int") != "int" and "min_own" in r.get("info", {}))
+    longw = sum(1 for c, r in zip(cases_, results) if c["tau_max"] > 256 and "min_own" in r.get("info", {}))
+    return [], dict(cases_judged_with_non_python_int_option=typed, cases_judged_with_tau_max_above_256=longw, cases_with_pc_variance_ratio_1e8_to_1e10=illc, cases_refit_on_same_object=refit, cases_with_negative_own_sum=neg, cases_with_own_sum_below_half=small, cases_with_own_sum_above_one=large)
 
 
 def vacuity(outcomes, results, tier):
     infos = [r.get("info", {}) for r in results]
+    if not any(i.get("long") for i in infos):
+        return "no judged case with tau_max > 256"
+    if not any(i.get("argtype") in ("np.int64", "np.int32") for i in infos):
+        return "no judged case with tau_max given as a numpy integer"
     infos = [i for i in infos if "min_own" in i]
     if len(infos) < 0.9 * len(results):
         return "the lag-sum clause was evaluated on only %d of %d cases" % (len(infos), len(results))
